@@ -192,7 +192,9 @@ def classify(ctx, name, tags, jit, kv, known, stats, replay_line):
     if oc.startswith("finished") or oc.startswith("error:"):
         stats["not_looping"].append((name, jit, oc))
         return
-    if oc == "starved":
+    if oc == "starved" or (oc == "hang" and kv.get("marked") == "0" and kv.get("requests") == "0"):
+        # the harness ran out of time before the program reached its mark: no request was ever issued (the set-up part of the
+        # program - e.g. building a list of 3 million elements - did not finish on a loaded machine): no verdict
         stats["starved"] += 1
         return
     if oc == "hang-parked" and "K17c" in known:
